@@ -645,6 +645,7 @@ func (c *MJSocialElementComponent) Render(w io.StringWriter) error {
 		if src != "" {
 			img.AddAttribute("src", src)
 		}
+		c.addResponsiveImageAttributes(img)
 		img.AddAttribute("width", widthAttr).
 			AddStyle("border-radius", borderRadius).
 			AddStyle("display", "block")
@@ -826,6 +827,7 @@ func (c *MJSocialElementComponent) Render(w io.StringWriter) error {
 	if src != "" {
 		img.AddAttribute("src", src)
 	}
+	c.addResponsiveImageAttributes(img)
 	img.AddAttribute("width", widthAttr)
 
 	// Add title attribute if specified
@@ -841,6 +843,7 @@ func (c *MJSocialElementComponent) Render(w io.StringWriter) error {
 		link := html.NewHTMLTag("a").
 			AddAttribute("href", href).
 			AddAttribute("target", target)
+		c.addRel(link)
 		if err := link.RenderOpen(w); err != nil {
 			return err
 		}
@@ -901,6 +904,7 @@ func (c *MJSocialElementComponent) Render(w io.StringWriter) error {
 			textElement = html.NewHTMLTag("a").
 				AddAttribute("href", href).
 				AddAttribute("target", target)
+			c.addRel(textElement)
 		} else {
 			// Use <span> tag when no link
 			textElement = html.NewHTMLTag("span")
@@ -959,4 +963,21 @@ func (c *MJSocialElementComponent) Render(w io.StringWriter) error {
 
 func (c *MJSocialElementComponent) GetTagName() string {
 	return "mj-social-element"
+}
+
+// addResponsiveImageAttributes writes srcset and sizes, accepted attributes of mj-social-element, on the icon as MJML does.
+func (c *MJSocialElementComponent) addResponsiveImageAttributes(img *html.HTMLTag) {
+	if srcset := c.getAttribute("srcset"); srcset != "" {
+		img.AddAttribute("srcset", srcset)
+	}
+	if sizes := c.getAttribute("sizes"); sizes != "" {
+		img.AddAttribute("sizes", sizes)
+	}
+}
+
+// addRel writes the rel attribute of the element on one of its links.
+func (c *MJSocialElementComponent) addRel(link *html.HTMLTag) {
+	if rel := c.getAttribute("rel"); rel != "" {
+		link.AddAttribute("rel", rel)
+	}
 }
